@@ -179,10 +179,12 @@ func (r *Runner) builtin(ctx context.Context, pos syntax.Pos, name string, args 
 		}
 		exit.exiting = true
 	case "set":
-		if err := Params(args...)(r); err != nil {
+		err := Params(args...)(r)
+		// Note that the options before an invalid one were already applied.
+		r.updateExpandOpts()
+		if err != nil {
 			return failf(2, "set: %v\n", err)
 		}
-		r.updateExpandOpts()
 	case "shift":
 		n := 1
 		switch len(args) {
@@ -859,12 +861,14 @@ func (r *Runner) builtin(ctx context.Context, pos syntax.Pos, name string, args 
 				opt, supported = r.bashOptByName(arg)
 			}
 			if opt == nil {
+				r.updateExpandOpts() // earlier options were already applied
 				return failf(1, "shopt: invalid option name %q\n", arg)
 			}
 
 			switch mode {
 			case "-s", "-u":
 				if !supported {
+					r.updateExpandOpts() // earlier options were already applied
 					return failf(1, "shopt: unsupported option %q\n", arg)
 				}
 				*opt = mode == "-s"
